@@ -623,6 +623,7 @@ package p9
 //@   nopanic
 
 //@ func (*pathNode).nameFor
+//@   requires[C04,C08] @only-for-a-reference-that-is-not-fenced !fenced(ref)
 //@   requires[C03,C08] @name-read-under-the-rename-lock ref != nil && held(ref.server.renameMu) != 0
 //@   requires[C15,C16] held(p.childMu) == 0
 //@   ensures[C08,C09] @current-name has(p.childRefNames, ref) && result == p.childRefNames[ref]
@@ -1298,6 +1299,14 @@ package p9
 // receiver may pick it up at once - so the reference to the payload buffer is
 // dropped first (C18, C02: a cached object must not point at a buffer that
 // still belongs to the finished request).
+// calculateSize (feeds largestFixedSize, from which the client derives its
+// payload size): a message without payload counts with its whole encoded size
+//@ func calculateSize
+//@   modifies *
+//@   local_ensures[C13] @non-payload-messages-count-in-full !implements(m, payloader) ==> ncalls("message.encode") == 1 && result == uint32(len(dataBuf.data))
+//@   ensures[C13] @payload-messages-count-their-fixed-part implements(m, payloader) ==> ncalls("payloader.FixedSize") == 1
+//@   maypanic
+
 //@ func (*registry).put
 //@   use transportFrame
 //@   modifies $ncalls, $n.*
@@ -1757,9 +1766,9 @@ package p9
 //@   loop 0 invariant[C01] sameWrExcept(b)
 //@ func (*twalk).decode
 //@   logical mfid uint32, mnew uint32, mn uint16, mnames strs, R seq, hyp bool
-//@   requires[C01,C18] @hyp-names-the-frame-shape hyp == (!b.overflow && rd(b) == cons32(mfid, cons32(mnew, cons16(mn, consstrs(mnames, 0, int(mn), R)))) && forall(j, 0, int(mn), len(mnames[j]) <= 65535))
+//@   requires[C01,C03,C18] @hyp-names-the-frame-shape hyp == (!b.overflow && rd(b) == cons32(mfid, cons32(mnew, cons16(mn, consstrs(mnames, 0, int(mn), R)))) && forall(j, 0, int(mn), len(mnames[j]) <= 65535))
 //@   modifies $rd, b.overflow, b.data, self.fid, self.newFID, self.Names, arrays(string)
-//@   ensures[C01,C18] @decodes-what-was-encoded hyp ==> t.fid == fid(mfid) && t.newFID == fid(mnew) && len(t.Names) == int(mn) && forall(j, 0, int(mn), t.Names[j] == mnames[j]) && rd(b) == R && !b.overflow
+//@   ensures[C01,C03,C18] @decodes-what-was-encoded hyp ==> t.fid == fid(mfid) && t.newFID == fid(mnew) && len(t.Names) == int(mn) && forall(j, 0, int(mn), t.Names[j] == mnames[j]) && rd(b) == R && !b.overflow
 //@   ensures[C02,C18] @overrun-is-sticky old(b.overflow) ==> b.overflow
 //@   ensures[C01] @other-buffers-untouched sameRdExcept(b)
 //@   nopanic
@@ -1779,9 +1788,9 @@ package p9
 //@   loop 0 invariant[C01] sameWrExcept(b)
 //@ func (*twalkgetattr).decode
 //@   logical mfid uint32, mnew uint32, mn uint16, mnames strs, R seq, hyp bool
-//@   requires[C01,C18] @hyp-names-the-frame-shape hyp == (!b.overflow && rd(b) == cons32(mfid, cons32(mnew, cons16(mn, consstrs(mnames, 0, int(mn), R)))) && forall(j, 0, int(mn), len(mnames[j]) <= 65535))
+//@   requires[C01,C03,C18] @hyp-names-the-frame-shape hyp == (!b.overflow && rd(b) == cons32(mfid, cons32(mnew, cons16(mn, consstrs(mnames, 0, int(mn), R)))) && forall(j, 0, int(mn), len(mnames[j]) <= 65535))
 //@   modifies $rd, b.overflow, b.data, self.fid, self.newFID, self.Names, arrays(string)
-//@   ensures[C01,C18] @decodes-what-was-encoded hyp ==> t.fid == fid(mfid) && t.newFID == fid(mnew) && len(t.Names) == int(mn) && forall(j, 0, int(mn), t.Names[j] == mnames[j]) && rd(b) == R && !b.overflow
+//@   ensures[C01,C03,C18] @decodes-what-was-encoded hyp ==> t.fid == fid(mfid) && t.newFID == fid(mnew) && len(t.Names) == int(mn) && forall(j, 0, int(mn), t.Names[j] == mnames[j]) && rd(b) == R && !b.overflow
 //@   ensures[C02,C18] @overrun-is-sticky old(b.overflow) ==> b.overflow
 //@   ensures[C01] @other-buffers-untouched sameRdExcept(b)
 //@   nopanic
